@@ -23,14 +23,15 @@ long atol(const char *nptr) {
 
 	total = 0;
 	while (isdigit(c)) {
-		total = 10 * total + (c - '0');
+		/* accumulate negatively: LONG_MIN has no positive counterpart */
+		total = 10 * total - (c - '0');
 		c = *p++;
 	}
 
 	if (sign == '-') {
-		return -total;
-	} else {
 		return total;
+	} else {
+		return -total;
 	}
 }
 
